@@ -56,6 +56,7 @@ class HTTP11Connection(ConnectionInterface):
         self._keepalive_expiry: float | None = keepalive_expiry
         self._expire_at: float | None = None
         self._state = HTTPConnectionState.NEW
+        self._request_write_failed = False
         self._state_lock = Lock()
         self._request_count = 0
         self._h11_state = h11.Connection(
@@ -102,7 +103,10 @@ class HTTP11Connection(ConnectionInterface):
                 # read the response. Servers can sometimes close the request
                 # pre-emptively and then respond with a well formed HTTP
                 # error response.
-                pass
+                #
+                # The request has not been written in full, whatever the h11
+                # state says, so the connection must not be used again.
+                self._request_write_failed = True
 
             with Trace(
                 "receive_response_headers", logger, request, kwargs
@@ -257,6 +261,7 @@ class HTTP11Connection(ConnectionInterface):
             if (
                 self._h11_state.our_state is h11.DONE
                 and self._h11_state.their_state is h11.DONE
+                and not self._request_write_failed
             ):
                 self._state = HTTPConnectionState.IDLE
                 self._h11_state.start_next_cycle()
